@@ -205,6 +205,21 @@ func errSpans(ps []cmpb.Pos) (out []span4, allPositioned bool) {
 func walkerInputs() []string {
 	hdr := "package foo.v1\n\n"
 	bodies := []string{
+		// protovalidate rules of the walker model (CmpbWalkFile.vrules), each violated once
+		"object Foo {\n  entity.part = \"KEYS\"\n}\n",
+		"object Foo {\n  entity.entity = \"thing\"\n}\n",
+		"object Foo {\n  entity.entity = \"Thing_2\"\n  entity.part = \"STATE\"\n}\n",
+		"object Foo {\n  field k key:custom\n}\n",
+		"object Foo {\n  field k key:custom {\n    format.custom.pattern = \"^a$\"\n  }\n}\n",
+		"object Foo {\n  field n integer:UNSPECIFIED\n}\n",
+		"service Foo {\n  basePath = \"/foo\"\n  method Bar {\n    httpPath = \"/bar\"\n    request {\n    }\n  }\n}\n",
+		"service Foo {\n  basePath = \"/foo\"\n  method Bar {\n    httpMethod = \"GET\"\n    httpPath = \"/bar\"\n  }\n}\n",
+		"topic Foo upsert {\n  entityName = \"foo\"\n}\n",
+		"topic Foo event {\n}\n",
+		"topic Foo publish {\n  message lower {\n    field x string\n  }\n}\n",
+		"entity Foo {\n  key fooId key:id62\n}\n",
+		"object Foo {\n  field a array {\n  }\n}\n",
+		"object Foo {\n  field a map {\n    itemSchema.string.format = \"x\"\n    keySchema string\n  }\n}\n",
 		"object {\n}\n",
 		"object Foo Bar {\n}\n",
 		"object ! Foo {\n}\n",
